@@ -317,6 +317,11 @@ def shrink(pid, cfg, case, bad_bits, mode, seed, tier, budget=40):
     """Greedy delta-debugging: keep a smaller input while the same verdict bits stay set."""
     if cfg.get("no_shrink"):
         return case
+    # an input that carries generator-side expectations ("expect") cannot be cut without recomputing them: a
+    # shrunk variant could "fail" only because its expectation went stale, and the replay must be a genuine
+    # failing input; such cases are reported as generated
+    if isinstance(case.get("json"), dict) and case["json"].get("expect") is not None:
+        return case
     cur = case
     tries = 0
     improved = True
